@@ -111,6 +111,35 @@ Section SKProofs.
       exists (fst (snd x)), (snd (snd x)). split; [destruct x as [a [b c]]; exact Hx|reflexivity].
   Qed.
 
+  (* ---------- ServerKeys.PublicKey ---------- *)
+  Lemma assoc_first_In {A} (k : bytes) (m : list (bytes * A)) v : assoc_first k m = Some v -> In (k, v) m.
+  Proof.
+    induction m as [|[k' v'] m IH]; simpl; [discriminate|].
+    destruct (bytes_eqb k k') eqn:E.
+    - intro H; inversion H; subst. apply bytes_eqb_eq in E; subst. left; reflexivity.
+    - intro H; right; auto.
+  Qed.
+
+  Lemma public_key_spec (sk : server_keys) kid atts key :
+    public_key M sk kid atts = Some key ->
+    (In (kid, key) (sk_verify sk) /\ atts <= sk_valid_until sk) \/
+    (exists e, In (kid, (key, e)) (sk_old sk) /\ atts <= e).
+  Proof.
+    unfold public_key.
+    assert (Hold : match assoc_first kid (sk_old sk) with
+                   | Some (okey, e) => if atts <=? e then Some okey else None
+                   | None => None end = Some key ->
+                   exists e, In (kid, (key, e)) (sk_old sk) /\ atts <= e).
+    { destruct (assoc_first kid (sk_old sk)) as [[okey e]|] eqn:F; [|discriminate].
+      destruct (Z.leb_spec atts e) as [L|L]; [|discriminate]. intro HH; inversion HH; subst.
+      exists e. split; [apply assoc_first_In; exact F|assumption]. }
+    destruct (assoc_first kid (sk_verify sk)) as [k1|] eqn:F1.
+    - destruct (Z.leb_spec atts (sk_valid_until sk)) as [L|L].
+      + intro HH; inversion HH; subst. left. split; [apply assoc_first_In; exact F1|assumption].
+      + intro H. right. auto.
+    - intro H. right. auto.
+  Qed.
+
   (* ---------- PerspectiveKeyFetcher ---------- *)
   Lemma notary_signed_true pname pkeys raw kids :
     notary_signed M vj pname pkeys raw kids = Some true ->
